@@ -266,8 +266,61 @@ func navWrite(tree Val, t types.Type, path []PathEl, idxs []string, nv Val) Val 
 	panic("navWrite: index into " + t.String())
 }
 
+// opaqueOnPath reports whether the path enters a type that is modelled as an
+// opaque handle (its fields are not tracked).
+func (a *Addr) opaqueOnPath() bool {
+	if len(a.Path) == 0 {
+		return false
+	}
+	var t types.Type
+	switch a.Kind {
+	case AElems:
+		t = a.Root
+		if k := kindOf(t); k == KOpaque || k == KTime {
+			return len(a.Path) > 1
+		}
+		p := a.Path[1:]
+		for _, el := range p {
+			if k := kindOf(t); k == KOpaque || k == KTime {
+				return true
+			}
+			if el.IsIdx {
+				if kindOf(t) == KPacked {
+					return false
+				}
+				t = t.Underlying().(*types.Array).Elem()
+			} else {
+				t = t.Underlying().(*types.Struct).Field(el.Field).Type()
+			}
+		}
+		return false
+	default:
+		t = a.rootValueType()
+	}
+	for _, el := range a.Path {
+		if k := kindOf(t); k == KOpaque || k == KTime {
+			return true
+		}
+		if el.IsIdx {
+			if kindOf(t) == KPacked {
+				return false
+			}
+			t = t.Underlying().(*types.Array).Elem()
+		} else {
+			t = t.Underlying().(*types.Struct).Field(el.Field).Type()
+		}
+	}
+	return false
+}
+
 // load reads the value at address a in state st.
 func (ex *Exec) load(st *State, a *Addr) Val {
+	if a.opaqueOnPath() {
+		ex.vc.Trust("fields of opaque library types are not tracked (reads yield unconstrained values)")
+		t := a.typeAtOpaque()
+		v := ex.freshVal(t, "opq")
+		return v
+	}
 	switch a.Kind {
 	case ACell:
 		v, ok := st.cells[a.Cell]
@@ -303,6 +356,9 @@ func (ex *Exec) load(st *State, a *Addr) Val {
 
 // store writes v at address a.
 func (ex *Exec) store(st *State, a *Addr, v Val) {
+	if a.opaqueOnPath() {
+		return
+	}
 	switch a.Kind {
 	case ACell:
 		if len(a.Path) == 0 {
